@@ -244,7 +244,13 @@ def lit(v, t, pre, counter):
     if k == "range":
         return f"({lit_int(v[1])}..{'=' if v[3] else ''}{lit_int(v[2])})"
     if k == "none":
-        return "none"
+        src_t = ty_src(t) if isinstance(t, tuple) and t[0] == "opt" else None
+        if src_t is None:
+            return "none"
+        counter[0] += 1          # a bare `none` has no element type: bind it to a typed name
+        name = f"n{counter[0]}"
+        pre.append(f"let {name}: {src_t} = none;")
+        return name
     if k == "some":
         inner_t = t[1] if isinstance(t, tuple) and t[0] == "opt" else guess_ty(v[1])
         return "?" + lit(v[1], inner_t, pre, counter)
@@ -302,8 +308,12 @@ def program(op, rep_ty, member, recv, args, params, result):
         body = pre + [f"let v: {rt} = {recv_src};"]
         pre2 = []
         if op == "index":
-            idx_t = "str" if rep_ty in ("obj", "anyobj") else "int"
-            expr = f"v[{lit(args[0], idx_t, pre2, counter)}]"
+            if rep_ty in ("obj", "anyobj"):
+                # a variable key: a literal key of an object type is checked statically
+                pre2.append(f"let k = {lit(args[0], 'str', pre2, counter)};")
+                expr = "v[k]"
+            else:
+                expr = f"v[{lit(args[0], 'int', pre2, counter)}]"
         elif op == "field":
             expr = f"v.{member}"
         else:
@@ -316,7 +326,7 @@ def program(op, rep_ty, member, recv, args, params, result):
             if op != "index" or recv[0] not in ("obj", "anyobj"):
                 return None      # `any` results need a cast chosen per value (C12): direct route only
             held = dict(recv[1]).get(args[0][1])
-            cast = ty_src(guess_ty(held)) if held is not None and held[0] != "none" else "int"
+            cast = ty_src(guess_ty(held)) if held is not None else "int"
             if cast is None:
                 return None
             body.append(f"println({expr} as {cast});")
@@ -401,3 +411,13 @@ def random_sequences(rng, n, max_len):
                                                    for m, args in steps]) + ")"
         out.append(dict(op="seq", recv=recv, steps=steps, line=line))
     return out
+
+
+def seq_program(s):
+    """The sequence as a program: the calls as statements, then the list is printed."""
+    pre, counter = [], [0]
+    body = [f"let v: [int] = {lit(s['recv'], ('list', 'int'), pre, counter)};"]
+    for m, args in s["steps"]:
+        srcs = [lit(a, guess_ty(a), pre, counter) for a in args]
+        body.append(f"v.{m}({', '.join(srcs)});")
+    return "fn main() { " + " ".join(pre + body) + " println(v); }"
